@@ -19,11 +19,11 @@ PROPS = {
     },
     "C41": {
         "harness": "vh-flow",
-        "level_text": "Partial, and the pinned tree violates the full statement (three open known findings keyed by syntactic predicates of the input program). Kernel-checked: C41_witness (by decide: after `local k=nil; while not k do k='x' end` the model of bind_while_stat/get_type_at_flow infers `nil` at a probe the run reaches with a string) plus the witnesses for the generic-for exit and the missing back edge; C41_partial (per variable): for EVERY program of FL (F + while c / while true / repeat-until / numeric for with literal bounds / for-in / conditional break, any nesting, no size bound) and every set W of variables that contains the variables assigned in loop bodies and is closed under x=y, every terminating run and every probe of a variable outside W (inside bodies, on exit paths, after loops) has its value contained in the inferred type (induction on the fuel of the big-step semantics); loop bodies may assign the variables of W freely. C41_partial_inert is the W=empty case. The model of the loop binders is compared on every run with SemanticModel::infer_expr at every probe (exact member lists, including the programs inside the findings' predicates — the model reproduces the defects), its semantics with the luars VM and with a harness-side interpreter, and the property's oracle (VM runtime type in inferred type at every reached probe) runs on the implementation; failures count as known only when the program satisfies a listed predicate.",
+        "level_text": "Partial, and the pinned tree violates the full statement (three open known findings keyed by syntactic predicates of the input program). Kernel-checked: C41_witness (by decide: after `local k=nil; while not k do k='x' end` the model of bind_while_stat/get_type_at_flow infers `nil` at a probe the run reaches with a string) plus the witnesses for the generic-for exit and the missing back edge; C41_partial (per variable): for EVERY program of FL (F + while c / while true / repeat-until / numeric for with literal bounds / for-in / conditional break, any nesting, no size bound) and every set W of variables that contains the variables assigned in loop bodies and is closed under x=y, every terminating run and every probe of a variable outside W (inside bodies, on exit paths, after loops) has its value contained in the inferred type (induction on the fuel of the big-step semantics); loop bodies may assign the variables of W freely. C41_partial_inert is the W=empty case. C41_entered_loop_sound: the loop forms whose exit the analyzer merges (while true ... break, numeric for with statically entered literal bounds, repeat ... until c without break) are sound for a variable x their body assigns provided the loop does not read x (decidable loopOK2; proof by non-interference of the body in x and the iteration invariant `env = pre-loop env or sound at the abstract end of the body`): every reached probe of x after such a loop has its value in the inferred type. The model of the loop binders is compared on every run with SemanticModel::infer_expr at every probe (exact member lists, including the programs inside the findings' predicates — the model reproduces the defects), its semantics with the luars VM and with a harness-side interpreter, and the property's oracle (VM runtime type in inferred type at every reached probe) runs on the implementation; failures count as known only when the program satisfies a listed predicate.",
         "level_note": "Trusted: Lean kernel, harness + serialisers, correspondence run as the tie, luars as execution oracle. Not covered by a theorem (search only): loops whose bodies assign variables (that is where the defect lives), `continue`, `goto`, numeric for with non-literal bounds, everything outside F (see C15).",
         "trusted_base": FLOW_TB,
         "assumptions": [
-            "theorem covers the variables that no loop body assigns (and that receive no value from such a variable); runs terminate within the fuel given (no bound on the fuel)",
+            "theorems cover the variables that no loop body assigns (and that receive no value from such a variable), plus one variable assigned in entered loops (while true / entered numeric for / break-free repeat) that do not read it; runs terminate within the fuel given (no bound on the fuel)",
             "diagnostics clause searched: after a break-free loop whose exit condition proves v non-nil, `v:upper()` that the VM executes must not get need-check-nil `v may be nil` / call-non-callable on never",
             "open findings C41-while-exit, C41-generic-for-exit, C41-no-back-edge suppress oracle failures only for programs that satisfy their syntactic predicate",
         ],
